@@ -474,7 +474,91 @@ def extract(repo=REPO):
     debug_reads.sort()
     temporaries.sort(key=lambda r: (order[r[0]], r[3]))
     return dict(shared=shared, local=local, tree=tree, caches=caches, guards=guards, debug_reads=debug_reads,
-                stored=sorted(all_stored), per_call=per_call_declared, temporaries=temporaries)
+                stored=sorted(all_stored), per_call=per_call_declared, temporaries=temporaries,
+                setters=interpreter_setters(mods))
+
+
+# Calls that change interpreter-wide (process-wide) settings: not stores to an object of the library, so invisible to the
+# write analysis above, yet shared by every thread.  Any call whose dotted name ends in one of these (whatever alias the
+# module was imported under) is reported, and so is every `from <module> import <setter>`, every store into `os.environ` /
+# `sys.modules` / `sys.path` and every `global`-free assignment to an attribute of `sys`, `builtins`, `warnings`, `locale`.
+SETTER_CALLS = {
+    'sys': {'setrecursionlimit', 'setswitchinterval', 'set_int_max_str_digits', 'settrace', 'setprofile', 'setdlopenflags',
+            'set_asyncgen_hooks', 'set_coroutine_origin_tracking_depth', 'setcheckinterval', 'addaudithook'},
+    'threading': {'settrace', 'setprofile', 'stack_size', 'settrace_all_threads', 'setprofile_all_threads'},
+    'warnings': {'simplefilter', 'filterwarnings', 'resetwarnings', 'catch_warnings'},
+    'locale': {'setlocale'},
+    're': {'purge'},
+    'os': {'chdir', 'putenv', 'unsetenv', 'umask', 'setuid', 'setgid', 'nice'},
+    'signal': {'signal', 'setitimer', 'alarm', 'siginterrupt', 'set_wakeup_fd'},
+    'random': {'seed', 'setstate'},
+    'gc': {'disable', 'enable', 'set_threshold', 'set_debug', 'freeze'},
+    'time': {'tzset'},
+    'importlib': {'reload', 'invalidate_caches'},
+    'resource': {'setrlimit'},
+    'faulthandler': {'enable', 'disable'},
+    'atexit': {'register', 'unregister'},
+    'logging': {'basicConfig', 'disable', 'setLoggerClass', 'captureWarnings'},
+    'decimal': {'setcontext'},
+    'socket': {'setdefaulttimeout'},
+    'multiprocessing': {'set_start_method'},
+}
+SHARED_CONTAINERS = {('os', 'environ'), ('sys', 'modules'), ('sys', 'path'), ('sys', 'meta_path'), ('sys', 'path_hooks'),
+                     ('sys', 'argv'), ('warnings', 'filters')}
+SETTING_MODULES = {'sys', 'builtins', 'warnings', 'locale', 'os', 'threading', 'gc', 're'}
+
+
+def interpreter_setters(mods):
+    out = []
+    for mod in mods:
+        alias = {}          # local name -> real module name
+        for n in ast.walk(mod.tree):
+            if isinstance(n, ast.Import):
+                for a in n.names:
+                    alias[(a.asname or a.name).split('.')[0]] = a.name.split('.')[0]
+            elif isinstance(n, ast.ImportFrom) and n.module:
+                top = n.module.split('.')[0]
+                for a in n.names:
+                    if a.name in SETTER_CALLS.get(top, ()):
+                        out.append((mod.name, f'from {n.module} import {a.name}', n.lineno))
+                    if (top, a.name) in SHARED_CONTAINERS:
+                        out.append((mod.name, f'from {n.module} import {a.name}', n.lineno))
+
+        def dotted(e):
+            parts = []
+            while isinstance(e, ast.Attribute):
+                parts.append(e.attr)
+                e = e.value
+            if isinstance(e, ast.Name):
+                parts.append(alias.get(e.id, e.id))
+                return parts[::-1]
+            return None
+        for n in ast.walk(mod.tree):
+            if isinstance(n, ast.Call):
+                d = dotted(n.func)
+                if d and len(d) >= 2 and d[-1] in SETTER_CALLS.get(d[0], ()):
+                    out.append((mod.name, '.'.join(d) + '()', n.lineno))
+                # mutating method on a shared interpreter container: os.environ.update(...), sys.path.insert(...), sys.modules.pop(...)
+                if d and len(d) >= 3 and (d[0], d[1]) in SHARED_CONTAINERS and d[-1] in MUTATORS:
+                    out.append((mod.name, '.'.join(d) + '()', n.lineno))
+            targets = []
+            if isinstance(n, ast.Assign):
+                targets = n.targets
+            elif isinstance(n, (ast.AugAssign, ast.AnnAssign)):
+                targets = [n.target]
+            elif isinstance(n, ast.Delete):
+                targets = n.targets
+            for t in targets:
+                for y in ast.walk(t):
+                    if isinstance(y, ast.Subscript):
+                        d = dotted(y.value)
+                        if d and len(d) >= 2 and (d[0], d[1]) in SHARED_CONTAINERS:
+                            out.append((mod.name, '.'.join(d) + '[...] store', n.lineno))
+                    if isinstance(y, ast.Attribute) and isinstance(y.ctx, (ast.Store, ast.Del)):
+                        d = dotted(y)
+                        if d and len(d) == 2 and d[0] in SETTING_MODULES:
+                            out.append((mod.name, '.'.join(d) + ' store', n.lineno))
+    return sorted(set(out))
 
 
 def render(d):
@@ -589,6 +673,11 @@ def render(d):
     L.append('def moduleLevelTemporaries : List (String × String × String × Nat) := [' +
              ', '.join(f'({lean_str(m)}, {lean_str(c)}, {lean_str(me)}, {ln})' for m, c, me, ln in d['temporaries']) + ']')
     L.append('')
+    L.append('/-- Calls / stores that change interpreter-wide settings (recursion limit, switch interval, warnings filters, locale,')
+    L.append('    signal handlers, `os.environ`, `sys.modules`, `sys.path`, the `re` cache, …): (module, what, line). -/')
+    L.append('def interpreterSetters : List (String × String × Nat) := [' +
+             ', '.join(f'({lean_str(m)}, {lean_str(w)}, {ln})' for m, w, ln in d['setters']) + ']')
+    L.append('')
     L.append('end SoupVerif.Gen.Effects')
     return '\n'.join(L) + '\n'
 
@@ -600,7 +689,7 @@ def main(dest, repo=REPO):
     if old != text:
         with open(dest, 'w', encoding='utf-8') as f:
             f.write(text)
-    return dict(sharedWrites=len(d['shared']), localWrites=len(d['local']), treeWrites=len(d['tree']),
+    return dict(interpreterSetters=len(d['setters']), sharedWrites=len(d['shared']), localWrites=len(d['local']), treeWrites=len(d['tree']),
                 caches=len(d['caches']), debugGuarded=len(d['guards']),
                 notPerCall=[(m, c, f, ln) for (m, c, f, t, a, ln, k, life) in d['shared'] if life in ('shared', 'unknown')])
 
